@@ -18,6 +18,8 @@ one, else the QNAME (through Name's case-insensitive Hash, C16);
 (d) Category::from maps RCODE 0 -> NoError, 3 -> NxDomain, everything else -> Error;
 (e) subject_to_rrl is send_response && transport == Udp && opcode == QUERY, and its true edge dominates the bucket access;
 (f) the prefix setters build masks MAX << (width - len), 0 for len 0, and reject len > width.
+(g) in answer / answer_any the lookup result's source of synthesis is stored into the context before any step that can
+fail, so a truncated (or slipped) wildcard answer is keyed by the wildcard and not by its QNAME;
 Not decided: hash-collision behaviour; "exactly when" over address pairs (value-level).
 """
 ASSUMPTIONS = ['std::net conversions are trusted', 'every CFG path is assumed feasible']
@@ -169,3 +171,22 @@ def check(R, F):
     ok = len(prc) == 1 and len(hw) == 1 and hm.dominates(hw[0][0], prc[0][0]) and all(not hm.find_path(hw[0][0], lambda x: x == f, avoid={prc[0][0]} | {b for b in range(len(hm.blocks)) if any(re.match(r'^discr\(arg1\.rrl\) (in \[0\]|not in \[1\])$', g) for g in paths.direct_guards(hm, b))}) for f in fin)
     R.require(ok, 'subject', 'server::Server::<C>::handle_message|rrl-after-processing', hm.where(), 'process_response runs after processing and before finish whenever RRL is configured', 'process_response is not applied between processing and finish on every path with RRL configured')
     R.floor('subject', 3)
+
+    # ---- (g) the wildcard source of synthesis reaches the key on *every* outcome of the answer, including the one where
+    # writing the answer fails (truncation: a slipped / truncated wildcard answer is still a response of the wildcard's
+    # stream).  So the store `context.source_of_synthesis = <lookup result>.source_of_synthesis` must not be preceded,
+    # after the lookup, by a step that can fail (seed C27-e: store moved below `add_answer_rrset(..)?`).
+    from qv import effects
+    from rules.writer_common import _fallible_local_call
+    n_stores = 0
+    for gp in ('server::query::answer', 'server::query::answer_any'):
+        fn = F.fn(gp)
+        stores = [b for (c, f), sites in effects.direct_writes(fn).items() if f == 'source_of_synthesis' and c.endswith('Context') for b, k in sites]
+        fallible = [x for x in fn.reachable(0) if not fn.blocks[x]['cleanup'] and _fallible_local_call(fn, x)]
+        for k, b in enumerate(sorted(set(stores))):
+            n_stores += 1
+            before = [x for x in fallible if x != b and fn.find_path(x, lambda y, b=b: y == b)]
+            R.require(not before, 'sos-recorded', '%s|store#%d-before-fallible-steps' % (gp, k), fn.where(b),
+                      'source_of_synthesis is recorded before any step of the answer that can fail',
+                      'the source of synthesis is recorded only after %s, which can fail (truncation): a truncated wildcard answer is then keyed by its QNAME' % sorted({paths.short(callee_name(fn.blocks[x]['term'])) for x in before}))
+    R.floor('sos-recorded', 4, 'answer: Found, Cname, NoRecords; answer_any: Found')
